@@ -1,5 +1,6 @@
 //! snowmc <property> [--tier quick|thorough] [--replay <file>]
 pub mod ctx;
+pub mod engine;
 pub mod exec;
 pub mod props;
 pub mod seam;
